@@ -191,7 +191,7 @@ def extract_nbt(
 def __str_slice(token: Token, tokenizer: Tokenizer) -> str:
     # the bracket is re-tokenised, so that blanks, line breaks and comments in it are not part of the bounds
     slices = clean_up_paren_token(token, tokenizer)[1:-1].split(":")
-    if not slices or len(slices) > 2:
+    if len(slices) != 2:
         raise JMCSyntaxException("Expected operator after nbt", token, tokenizer)
     if not slices[1]:
         return slices[0].strip()
@@ -217,7 +217,7 @@ def __get_type_scale(
     ):
         scale = tokens[0].string
         del tokens[:2]
-    if tokens[0].token_type == TokenType.PAREN_ROUND:
+    if tokens and tokens[0].token_type == TokenType.PAREN_ROUND:
         type_ = clean_up_paren_token(tokens[0], tokenizer)[1:-1]
         if type_ not in (
             "byte",
@@ -273,11 +273,23 @@ def nbt_operation(
             tokens[1] = tokenizer.merge_tokens(tokens[1:3])
             del tokens[2]
         if not index:
+            if len(tokens) < 2:
+                raise JMCSyntaxException(
+                    "Expected a number after `^` for NBT insert (got nothing)",
+                    tokens[0],
+                    tokenizer,
+                )
             index = tokens[1].string
             del tokens[1]
         if not is_number(index):
             raise JMCSyntaxException(
-                f"Expected a number after `^` for NBT insert, got {tokens[1].string}",
+                f"Expected a number after `^` for NBT insert, got {index}",
+                tokens[0],
+                tokenizer,
+            )
+        if len(tokens) < 2:
+            raise JMCSyntaxException(
+                f"Expected a token after NBT insert index ({index})",
                 tokens[0],
                 tokenizer,
             )
@@ -320,11 +332,11 @@ def nbt_operation(
 
     operator_token = tokens[0]
     operator = tokens[0].string
+    del tokens[0]
     if not tokens:
         raise JMCSyntaxException(
-            f"Expected a token after {operator}", tokens[0], tokenizer
+            f"Expected a token after {operator}", operator_token, tokenizer
         )
-    del tokens[0]
 
     if operator in ("<<", ">>", "="):
         if len(tokens) > 1 and tokens[0].string == "-":
@@ -366,12 +378,24 @@ def nbt_operation(
             )
         ):
             type_, scale = __get_type_scale(tokens, tokenizer, datapack)
+            if not tokens:
+                raise JMCSyntaxException(
+                    f"Expected command after operator{operator} (got nothing)",
+                    operator_token,
+                    tokenizer,
+                )
             func = FuncContent(
                 tokenizer, [tokens], is_load=False, lexer=datapack.lexer, prefix=prefix
             ).parse()
             if len(func) > 1:
                 raise JMCSyntaxException(
                     f"Multiple commands(got {len(func)}) cannot be assigned to nbt",
+                    tokens[0],
+                    tokenizer,
+                )
+            if not func:
+                raise JMCSyntaxException(
+                    "Expected a command that can be assigned to nbt",
                     tokens[0],
                     tokenizer,
                 )
@@ -388,6 +412,10 @@ def nbt_operation(
         if right_nbt_type is None:
             if tokens[0].string == "-":
                 tokens = [tokenizer.merge_tokens(tokens)]
+            if tokens[0].string == "$" and len(tokens) == 1:
+                raise JMCSyntaxException(
+                    "Expected a token after $", tokens[0], tokenizer
+                )
             if (
                 tokens[0].string == "$"
                 and tokens[1].token_type == TokenType.PAREN_ROUND
@@ -454,8 +482,8 @@ def nbt_operation(
         type_, scale = __get_type_scale(tokens, tokenizer, datapack)
         if len(tokens) == 0:
             raise JMCSyntaxException(
-                f"Expected command after operator{tokens[0].string}(got nothing)",
-                tokens[1],
+                f"Expected command after operator{operator} (got nothing)",
+                operator_token,
                 tokenizer,
             )
         func_content = FuncContent(
@@ -464,7 +492,13 @@ def nbt_operation(
         if len(func_content) > 1:
             raise JMCSyntaxException(
                 "Operator '?=' does not support command that return multiple commands",
-                tokens[2],
+                tokens[0],
+                tokenizer,
+            )
+        if not func_content:
+            raise JMCSyntaxException(
+                "Expected a command that can be assigned to nbt",
+                tokens[0],
                 tokenizer,
             )
         if func_content[0].startswith("execute"):
@@ -474,6 +508,10 @@ def nbt_operation(
 
     elif operator == "*":
         if tokens[0].string == "-":
+            if len(tokens) == 1:
+                raise JMCSyntaxException(
+                    "Expected a token after -", tokens[0], tokenizer
+                )
             tokens[0] = tokenizer.merge_tokens(tokens[0:2])
             del tokens[1]
         if (
